@@ -24,7 +24,7 @@ func (e *Exec) pkgOf(fn *ssa.Function) *types.Package {
 
 // contractEnv binds a contract's names to argument values.
 func (e *Exec) contractEnv(fn *ssa.Function, ct *FuncContract, args []Val, old, cur State, brkOld *Term) *cenv {
-	env := &cenv{e: e, vars: map[string]cval{}, cur: cur, old: old, pkg: e.pkgOf(fn), brkOld: brkOld, where: ct.Line}
+	env := &cenv{e: e, vars: map[string]cval{}, cur: cur, old: old, pkg: e.pkgOf(fn), brkOld: brkOld, where: ct.Line, facts: new([]*Term)}
 	for i, p := range fn.Params {
 		name := p.Name()
 		if i < len(ct.Params) {
@@ -33,6 +33,18 @@ func (e *Exec) contractEnv(fn *ssa.Function, ct *FuncContract, args []Val, old, 
 		env.vars[name] = cval{v: args[i], T: p.Type()}
 	}
 	return env
+}
+
+// useFacts moves the side facts gathered while evaluating contract expressions into st.
+func (e *Exec) useFacts(st State, env *cenv) State {
+	if env.facts == nil {
+		return st
+	}
+	for _, f := range *env.facts {
+		st = st.assume(f)
+	}
+	*env.facts = (*env.facts)[:0]
+	return st
 }
 
 func (e *Exec) bindResults(env *cenv, fn *ssa.Function, ct *FuncContract, ret Val) {
@@ -74,8 +86,15 @@ type VerifyResult struct {
 }
 
 // verifyFunction proves fn against its contract (implicit obligations + ensures).
-func verifyFunction(P *Program, fn *ssa.Function, props []string) (res *VerifyResult) {
+func verifyFunction(P *Program, fn *ssa.Function, props []string) *VerifyResult {
+	return verifyFunctionOpt(P, fn, props, nil)
+}
+
+func verifyFunctionOpt(P *Program, fn *ssa.Function, props []string, opt func(*Exec)) (res *VerifyResult) {
 	e := newExec(P)
+	if opt != nil {
+		opt(e)
+	}
 	e.rootFn = fn
 	ct := P.contracts.lookup(P, fn)
 	if ct == nil {
@@ -149,7 +168,9 @@ func verifyFunction(P *Program, fn *ssa.Function, props []string) (res *VerifyRe
 	e.evalLets(env, ct)
 	for _, r := range ct.Requires {
 		env.where = r.Line
-		st = st.assume(env.evalBool(r.X))
+		g := env.evalBool(r.X)
+		st = e.useFacts(st, env)
+		st = st.assume(g)
 	}
 	// vacuity cover: the preconditions must be satisfiable
 	e.cover(st, fn, "cover.requires")
@@ -171,6 +192,7 @@ func verifyFunction(P *Program, fn *ssa.Function, props []string) (res *VerifyRe
 			penv.where = en.Line
 			penv.cur = s
 			goal := penv.evalBool(en.X)
+			s = e.useFacts(s, penv)
 			lab := en.Label
 			if lab == "" {
 				lab = fmt.Sprintf("e%d", i)
@@ -186,9 +208,12 @@ func verifyFunction(P *Program, fn *ssa.Function, props []string) (res *VerifyRe
 			e.frameCheck(s, entry, penv, ct.Assigns, fn, "assigns", entry.brk)
 		}
 	}
-	if len(outs) > 0 {
-		// reachability of a normal return (vacuity guard iii)
-		e.cover(outs[0].st, fn, "cover.return")
+	// reachability of a normal return (vacuity guard iii): some return path is feasible
+	for i, o := range outs {
+		if i >= 12 {
+			break
+		}
+		e.cover(o.st, fn, "cover.return")
 	}
 	return res
 }
@@ -213,6 +238,7 @@ func (e *Exec) frameCheck(cur State, base State, env *cenv, assigns []Expr, fn *
 	for _, a := range assigns {
 		spans = append(spans, n.lvalueSpans(a)...)
 	}
+	cur = e.useFacts(cur, &n)
 	for h := 0; h < 4; h++ {
 		if cur.h[h] == base.h[h] {
 			continue
@@ -289,6 +315,7 @@ func (e *Exec) applyContract(fr *Frame, st State, fn *ssa.Function, ct *FuncCont
 	for i, r := range ct.Requires {
 		env.where = r.Line
 		goal := env.evalBool(r.X)
+		st = e.useFacts(st, env)
 		lab := r.Label
 		if lab == "" {
 			lab = fmt.Sprintf("r%d", i)
@@ -301,6 +328,7 @@ func (e *Exec) applyContract(fr *Frame, st State, fn *ssa.Function, ct *FuncCont
 		for _, a := range ct.Assigns {
 			spans = append(spans, env.lvalueSpans(a)...)
 		}
+		st = e.useFacts(st, env)
 		st = e.havocSpans(st, spans, short)
 	} else {
 		st = e.havocAll(st, short)
@@ -318,7 +346,9 @@ func (e *Exec) applyContract(fr *Frame, st State, fn *ssa.Function, ct *FuncCont
 	e.evalLets(penv, ct)
 	for _, en := range ct.Ensures {
 		penv.where = en.Line
-		st = st.assume(penv.evalBool(en.X))
+		g := penv.evalBool(en.X)
+		st = e.useFacts(st, penv)
+		st = st.assume(g)
 	}
 	if st.pcFalse() {
 		return nil
@@ -330,7 +360,7 @@ func (e *Exec) applyContract(fr *Frame, st State, fn *ssa.Function, ct *FuncCont
 
 func (e *Exec) loopEnv(fr *Frame, st State, b *ssa.BasicBlock, phiVals map[*ssa.Phi]Val) *cenv {
 	ct := e.ctFor(fr)
-	env := &cenv{e: e, vars: map[string]cval{}, cur: st, old: fr.entry, pkg: e.pkgOf(fr.fn), brkOld: fr.entry.brk}
+	env := &cenv{e: e, vars: map[string]cval{}, cur: st, old: fr.entry, pkg: e.pkgOf(fr.fn), brkOld: fr.entry.brk, facts: new([]*Term)}
 	// parameters (contract names when this is the root, else source names)
 	for i, p := range fr.fn.Params {
 		name := p.Name()
@@ -429,6 +459,14 @@ func (e *Exec) enterLoopHeader(fr *Frame, st State, b *ssa.BasicBlock, prev *ssa
 		lc = ct.Loops[ord]
 	}
 	back := prev != nil && isBackEdge(prev, b)
+	if e.noCut {
+		lc = nil
+		fr.visits[b]++
+		if fr.visits[b] > e.cfg.unroll+1 {
+			return st, true
+		}
+		return st, false
+	}
 	if lc == nil || len(lc.Invariants) == 0 && lc.Decreases == nil {
 		// unrolling
 		limit := e.cfg.unroll
@@ -471,7 +509,9 @@ func (e *Exec) enterLoopHeader(fr *Frame, st State, b *ssa.BasicBlock, prev *ssa
 			if lab == "" {
 				lab = fmt.Sprintf("i%d", i)
 			}
-			st = e.oblige(st, fr.fn, "inv.entry", fmt.Sprintf("loop%d.%s", ord, lab), pos, env.evalBool(inv.X))
+			g := env.evalBool(inv.X)
+			st = e.useFacts(st, env)
+			st = e.oblige(st, fr.fn, "inv.entry", fmt.Sprintf("loop%d.%s", ord, lab), pos, g)
 		}
 		// havoc loop-carried state
 		if lc.HasAssigns {
@@ -480,6 +520,7 @@ func (e *Exec) enterLoopHeader(fr *Frame, st State, b *ssa.BasicBlock, prev *ssa
 				env.where = ct.Line
 				spans = append(spans, env.lvalueSpans(a)...)
 			}
+			st = e.useFacts(st, env)
 			st = e.havocSpans(st, spans, "loop")
 		}
 		limit := st.brk
@@ -500,7 +541,9 @@ func (e *Exec) enterLoopHeader(fr *Frame, st State, b *ssa.BasicBlock, prev *ssa
 		henv := e.loopEnv(fr, st, b, hv)
 		for _, inv := range lc.Invariants {
 			henv.where = inv.Line
-			st = st.assume(henv.evalBool(inv.X))
+			g := henv.evalBool(inv.X)
+			st = e.useFacts(st, henv)
+			st = st.assume(g)
 		}
 		cut := &loopCut{headState: st, regsAt: regsAt}
 		cut.limit = limit
@@ -508,7 +551,8 @@ func (e *Exec) enterLoopHeader(fr *Frame, st State, b *ssa.BasicBlock, prev *ssa
 			henv.where = lc.Decreases.Line
 			dv := henv.eval(lc.Decreases.X)
 			cut.variant = henv.toInt64(dv)
-			st = e.oblige(st, fr.fn, "variant.bounded", fmt.Sprintf("loop%d", ord), pos, c.Sle(c.Const(64, 0), cut.variant))
+			st = e.useFacts(st, henv)
+			cut.headState = st
 		} else if ct == nil || !ct.NoTerm {
 			e.noDecr = append(e.noDecr, fmt.Sprintf("%s loop %d", shortFn(fr.fn.String()), ord))
 		}
@@ -527,12 +571,15 @@ func (e *Exec) enterLoopHeader(fr *Frame, st State, b *ssa.BasicBlock, prev *ssa
 		if lab == "" {
 			lab = fmt.Sprintf("i%d", i)
 		}
-		st = e.oblige(st, fr.fn, "inv.keep", fmt.Sprintf("loop%d.%s", ord, lab), pos, env.evalBool(inv.X))
+		g := env.evalBool(inv.X)
+		st = e.useFacts(st, env)
+		st = e.oblige(st, fr.fn, "inv.keep", fmt.Sprintf("loop%d.%s", ord, lab), pos, g)
 	}
 	if lc.Decreases != nil {
 		env.where = lc.Decreases.Line
 		nv := env.toInt64(env.eval(lc.Decreases.X))
-		st = e.oblige(st, fr.fn, "variant.decreases", fmt.Sprintf("loop%d", ord), pos, c.Slt(nv, cut.variant))
+		st = e.useFacts(st, env)
+		st = e.oblige(st, fr.fn, "variant", fmt.Sprintf("loop%d", ord), pos, c.And(c.Sle(c.Const(64, 0), cut.variant), c.Slt(nv, cut.variant)))
 	}
 	// frame of the loop body
 	henv := e.loopEnv(fr, cut.headState, b, nil)
